@@ -194,6 +194,14 @@ def c13_items(tier: str, seed: int):
 
     def one(op, inner):
         add(op, ["#[enum_tools(%s)]" % inner])
+        if True:
+            # the same invalid item among legal ones (which never repair it): before, after, in a later attribute
+            add(op + "+ctx_after", ["#[enum_tools(%s, Display, TryFrom)]" % inner])
+            add(op + "+ctx_before", ["#[enum_tools(Display, TryFrom, %s)]" % inner])
+            add(op + "+ctx_second_attr", ["#[enum_tools(Display)]", "#[enum_tools(TryFrom)]", "#[enum_tools(%s)]" % inner])
+            add(op + "+other_enums", ["#[enum_tools(%s)]" % inner],
+                enums=(("#[repr(i64)]", "pub enum E { A = -9223372036854775807, B = -5, C = -4, D = 9223372036854775807 }"),
+                       ("#[repr(u8)]", "pub enum E { A = 255 }")))
 
     # unknown / mis-cased features
     for f in ["foo", "As_str", "AS_STR", "debug", "display", "Try_From", "tryfrom", "min", "max", "Min", "iterr",
@@ -301,6 +309,8 @@ def c14_items(tier: str, seed: int):
     kinds.append(("dupname_ident3", [("A", "4", "B"), ("B", "5", None), ("C", "-1", None)]))
     kinds.append(("minus_one4", [("A", "-1", None), ("B", "-5", None), ("C", None, None), ("D", "0", None)]))
     if tier != "quick":
+        kinds.append(("explicit6", [("A", "-8", None), ("B", "-1", None), ("C", "0", "a"), ("D", "3", None), ("E", "70", "B"), ("F", "71", None)]))
+        kinds.append(("mixed6", [("A", None, None), ("B", None, "x"), ("C", "-2", None), ("D", None, None), ("E", None, "A"), ("F", "40", None)]))
         kinds.append(("explicit5", [("A", "1", None), ("B", "2", None), ("C", "3", None), ("D", "40", None), ("E", "50", None)]))
         kinds.append(("mixed5", [("A", None, "x"), ("B", "7", None), ("C", None, None), ("D", "2", "A"), ("E", None, None)]))
         kinds.append(("dupname4", [("A", "1", "n"), ("B", "2", "n"), ("C", "3", None), ("D", "4", None)]))
@@ -312,6 +322,8 @@ def c14_items(tier: str, seed: int):
         perms = list(itertools.permutations(range(len(vs))))
         if tier == "quick" and len(perms) > 24:
             perms = rng.sample(perms, 24)
+        if tier != "quick" and len(perms) > 240:
+            perms = rng.sample(perms, 240)
         for perm in perms:
             seq = [vs[i] for i in perm]
             # model: discriminants and names in declaration order
